@@ -219,7 +219,7 @@ def run(P, rep, tier):
     sites = {}
     for p in paths:
         for ev in p.events:
-            if ev.fi is None or ev.fi not in (R.header_fn,):
+            if ev.fi is None or R.header_fn not in ev.stack:
                 continue
             if ev.kind == 'mayraise':
                 if not input_dependent(ev.data.get('operands', ())):
@@ -254,12 +254,12 @@ def run(P, rep, tier):
     seen_nodes = set()
     for p in paths:
         for ev in p.events:
-            if ev.fi is R.header_fn and ev.kind == 'raise' and not ev.data.get('implicit') and id(ev.node) not in seen_nodes:
+            if R.header_fn in ev.stack and ev.kind == 'raise' and not ev.data.get('implicit') and id(ev.node) not in seen_nodes:
                 seen_nodes.add(id(ev.node))
                 nm = exc_name(ev.data['exc'])
                 if nm == 'DiffXParseError':
                     rep.ok(r2, 'raise %s at %s' % (nm, ev.loc))
-            if ev.fi is R.header_fn and ev.kind in ('decode', 'unpack', 'split') and id(ev.node) not in seen_nodes:
+            if R.header_fn in ev.stack and ev.kind in ('decode', 'unpack', 'split') and id(ev.node) not in seen_nodes:
                 seen_nodes.add(id(ev.node))
                 if not any(k[1] == norm(ev.node) and v[1] for k, v in sites.items()):
                     rep.ok(r2, 'sink proved safe: %s' % norm(ev.node)[:70])
